@@ -207,6 +207,9 @@ static std::string seam_bytes;
 static unsigned long seam_puts = 0, seam_flushes = 0;
 static void seamFPuts(const char* str, PlatformSpecificFile file) { if (file == PlatformSpecificStdOut) { seam_bytes += str; seam_puts++; } }
 static void seamFlush(void) { seam_flushes++; }
+// sink 0: nothing of the library's may reach the harness' own standard output (the protocol channel) - e.g. the console output of the
+// fallback TestResult that UtestShell::getTestResult() hands out outside a test
+static void strayFPuts(const char*, PlatformSpecificFile) {}
 
 // sink 2: file descriptor 1 goes to a scratch file while the output object lives
 static int scratch_fd = -1, saved_fd1 = -1;
@@ -312,6 +315,7 @@ int main()
             reg.setNameFilters(chain);
             if (ri) reg.setRunIgnored();
             n_tests = (size_t)n; exec_counts.assign((size_t)passes * n_tests, 0);
+            if (sink == 0) { PlatformSpecificFPuts = strayFPuts; PlatformSpecificFlush = seamFlush; }
             if (sink == 1) { seam_bytes.clear(); seam_puts = seam_flushes = 0; PlatformSpecificFPuts = seamFPuts; PlatformSpecificFlush = seamFlush; }
             if (sink == 2) fd1_begin();
             {
@@ -326,6 +330,7 @@ int main()
                 }
                 if (sink == 0) stream = static_cast<CapturingTeamCityOutput&>(out).captured;
             }   // the output object is gone: whatever it still held has been written or is lost
+            if (sink == 0) { PlatformSpecificFPuts = realFPuts; PlatformSpecificFlush = realFlush; }
             if (sink == 1) { PlatformSpecificFPuts = realFPuts; PlatformSpecificFlush = realFlush; stream = seam_bytes; }
             if (sink == 2) stream = fd1_end();
             PlatformSpecificFork = realFork; PlatformSpecificWaitPid = realWaitPid;
